@@ -316,7 +316,7 @@ BOUNDED = [
     ('scalar_pairs', ['C04', 'C06', 'C10', 'C12'], 'scalar_pairs:450', 'scalar_pairs:1500',
      'same for FftPlannerScalar<f64>: every ordered pair of requests below the limit, same and opposite direction'),
     ('simd_history', ['C04', 'C06', 'C10'], 'simd_history:1', 'simd_history:1000',
-     'history on one AVX / SSE planner: every ordered pair of requests over 11 (thorough 18) related lengths x 2 directions: len, direction, result equals the portable transform up to rounding', 'avx,sse'),
+     'history on one AVX / SSE planner: every ordered pair of requests over 11 (thorough 18) related lengths x 2 directions: len, direction, result equals the portable transform up to rounding; replicas: 6 planners of each kind fed the same sequence (two cached candidate inner lengths, then a Bluestein prime; related smooth lengths) must return bit-identical outputs', 'avx,sse'),
     ('dft_scalar', ['C01', 'C06', 'C12', 'C14'], 'dft_scalar:400+', 'dft_scalar:2500+',
      'floating-point algebra is outside both verifiers: FftPlannerScalar<f64> against the DFT definition through all four entry points (NaN-filled exact scratch and output): unit impulses and two-impulse sums for every n below the limit and structured lengths up to 16384 (thorough: up to 131072 incl. Bluestein/Rader primes above 65536), dense vector vs naive sum for n <= 256'),
     ('compose', ['C01', 'C03', 'C09', 'C12'], 'compose:64,0', 'compose:96,1',
